@@ -43,7 +43,7 @@ theorem run_cons (st : St) (i : Nat) (c : Char) (cs : List Char) :
 /-- mantissa accumulation over a run of digit characters -/
 def foldMant (m : Nat) (ds : List Char) : Nat := ds.foldl (fun m c => m * 10 + digitVal c) m
 
-theorem foldMant_nil (m : Nat) : foldMant m [] = m := rfl
+@[simp] theorem foldMant_nil (m : Nat) : foldMant m [] = m := rfl
 theorem foldMant_cons (m : Nat) (c : Char) (cs : List Char) :
     foldMant m (c :: cs) = foldMant (m * 10 + digitVal c) cs := by
   simp only [foldMant, List.foldl_cons]
@@ -109,7 +109,7 @@ theorem run_frac : ∀ (rest : List Char) (st : St) (i k : Nat), i ≠ 0 → st.
       by_cases hov : st.mant * 10 + digitVal c > i128Max
       · have := foldMant_ge (st.mant * 10 + digitVal c) cs
         have hnot : ¬ (foldMant (st.mant * 10 + digitVal c) cs ≤ i128Max) := by omega
-        simp [hov, acc, hnot]
+        simp [hov, acc, hnot, foldMant_cons]
       · simp only [hov, if_false]
         rw [ih _ (i + 1) (k + 1) (by omega) (by simp [hc]) (by simp [hs]) (by simp; omega)]
         simp only [List.all_cons, hd, Bool.true_and, foldMant_cons, List.length_cons, hs, Option.isNone_some,
